@@ -332,6 +332,7 @@ func RunExpr(ctx *Task, node *ast.Node) *errchain.PlError {
 
 	// TODO
 	case ast.TypeAttrExpr:
+		ctx.Regs.Reset() // yields no value: must not leave an earlier result behind
 		return nil
 
 	case ast.TypeBoolLiteral:
@@ -1043,6 +1044,8 @@ func changeListOrMapValue(ctx *Task, obj any, index []*ast.Node, val V) *errchai
 }
 
 func RunCallExpr(ctx *Task, expr *ast.CallExpr) *errchain.PlError {
+	// a function that returns nothing must not leave an earlier result behind
+	ctx.Regs.Reset()
 	if funcCall, ok := ctx.GetFn(expr.Name); ok {
 		if err := funcCall(ctx, expr); err != nil {
 			return err
